@@ -145,7 +145,7 @@ theorem mem_replaceAll_single (a : Char) (rep : List Char) (x : Char) (s : List 
     rw [replaceAll_cons]
     by_cases hc : a = c
     · subst hc
-      simp only [ne_eq, List.cons_ne_self, not_false_eq_true, decide_true, isPrefix_cons_cons,
+      simp only [ne_eq, List.cons_ne_self, not_false_eq_true, decide_true,
         beq_self_eq_true, isPrefix, Bool.and_self, ↓reduceIte, List.length_cons, List.length_nil,
         Nat.zero_add, List.drop_succ_cons, List.drop_zero, List.mem_append, List.mem_cons]
       rintro (h | h)
@@ -153,8 +153,8 @@ theorem mem_replaceAll_single (a : Char) (rep : List Char) (x : Char) (s : List 
       · rcases ih h with ⟨h1, h2⟩ | h
         · exact Or.inl ⟨Or.inr h1, h2⟩
         · exact Or.inr h
-    · simp only [ne_eq, reduceCtorEq, not_false_eq_true, decide_true, isPrefix_cons_cons,
-        beq_iff_eq, hc, isPrefix, Bool.and_true, Bool.true_and, decide_false, Bool.false_eq_true,
+    · simp only [ne_eq, reduceCtorEq, not_false_eq_true, decide_true,
+        beq_iff_eq, hc, isPrefix, Bool.and_true, Bool.true_and,
         ↓reduceIte, List.mem_cons]
       rintro (h | h)
       · subst h; exact Or.inl ⟨Or.inl rfl, fun h => hc h.symm⟩
